@@ -14,7 +14,8 @@ Record tce := {
   t_script : bytes;
   t_path_len : Z;
   t_i : Z;
-  t_k : bytes             (* running hash m_k *)
+  t_k : bytes;            (* running hash m_k *)
+  t_leaf : bytes          (* the TapLeaf hash stored through m_tapleaf_hash at construction *)
 }.
 
 Section Session.
@@ -24,7 +25,7 @@ Variable low_s : bytes -> bool.
 Variable tap_tweak_ok : bytes -> bytes -> bytes -> bool -> bool.
 Variable sha256 : bytes -> bytes.
 
-Definition tagged (tag : bytes) (msg : bytes) : bytes := sha256 (sha256 tag ++ sha256 tag ++ msg).
+Definition tagged (tag : bytes) (msg : bytes) : bytes := let t := sha256 tag in sha256 (t ++ t ++ msg).
 Definition TAG_TAPLEAF : bytes := [84; 97; 112; 76; 101; 97; 102].             (* "TapLeaf" *)
 Definition TAG_TAPBRANCH : bytes := [84; 97; 112; 66; 114; 97; 110; 99; 104].   (* "TapBranch" *)
 
@@ -42,7 +43,8 @@ Definition tce_new (control program script : bytes) : tce :=
   {| t_control := control; t_program := program; t_script := script;
      t_path_len := (zlen control - TAPROOT_CONTROL_BASE_SIZE) / TAPROOT_CONTROL_NODE_SIZE;
      t_i := 0;
-     t_k := tapleaf_hash (Z.land (hd 0 control) TAPROOT_LEAF_MASK) script |}.
+     t_k := tapleaf_hash (Z.land (hd 0 control) TAPROOT_LEAF_MASK) script;
+     t_leaf := tapleaf_hash (Z.land (hd 0 control) TAPROOT_LEAF_MASK) script |}.
 
 (* std::lexicographical_compare on byte strings *)
 Fixpoint lex_lt (a b : bytes) : bool :=
@@ -60,7 +62,7 @@ Definition tce_iterate (t : tce) : tce * tce_state :=
     let node := firstn (Z.to_nat TAPROOT_CONTROL_NODE_SIZE) (skipn off (t_control t)) in
     let k' := if lex_lt (t_k t) node then tagged TAG_TAPBRANCH (t_k t ++ node) else tagged TAG_TAPBRANCH (node ++ t_k t) in
     ({| t_control := t_control t; t_program := t_program t; t_script := t_script t; t_path_len := t_path_len t;
-        t_i := t_i t + 1; t_k := k' |}, TceProcessing)
+        t_i := t_i t + 1; t_k := k'; t_leaf := t_leaf t |}, TceProcessing)
   else
     let p := firstn 32 (skipn 1 (t_control t)) in
     let res := tap_tweak_ok (t_program t) p (t_k t) (Z.odd (hd 0 (t_control t))) in
@@ -145,7 +147,7 @@ Definition dbg_step (c : cfg) (v : ienv) : ienv * status :=
       | (t', TceProcessing) => (set_seq (set_tce v (Some t')) (i_seq v + 1), SOk)
       | (t', TceDone) =>
           let v1 := set_seq (set_tce v None) (i_seq v + 1) in
-          (upd v1 (set_ed (i_e v1) (ed_set_tapleaf (e_ed (i_e v1)) (t_k t'))) (i_pc v1), SOk)
+          (upd v1 (set_ed (i_e v1) (ed_set_tapleaf (e_ed (i_e v1)) (t_leaf t'))) (i_pc v1), SOk)
       end
   | None =>
     match i_pc v with
